@@ -126,10 +126,16 @@ def run(prop_id, tier, seed, replay=None, configs=None, workers=None, quiet=Fals
             must[m] = counters.get(m, 0)
             if must[m] == 0:
                 inconclusive.append("must-see class %r was never observed" % m)
+        unattached = [k for k in contracts if k.startswith("not-attachable:")]
         for m in getattr(prop, "must_contracts", []):
             must["contract:" + m] = contracts.get(m, 0)
             if contracts.get(m, 0) == 0:
-                inconclusive.append("contract %r was evaluated zero times (stale binding?)" % m)
+                if m.startswith("post:") and unattached:
+                    # the routine the hook-level contract belongs to was renamed / re-parameterised by a refactoring: the
+                    # contract is an additional monitor, the output-level oracles still decide
+                    must["contract:" + m] = "not attachable: " + "; ".join(u[len("not-attachable:"):] for u in unattached)[:300]
+                else:
+                    inconclusive.append("contract %r was evaluated zero times (stale binding?)" % m)
         if evals == 0 or cut_calls == 0:
             inconclusive.append("no executions observed")
 
